@@ -144,10 +144,18 @@ func parseValue(p *parser) value {
 		}
 	case p.seeOp("+", "-"):
 		lead := p.Shift()
-		if p.See(tokInt) || p.See(tokFloat) {
+		if p.See(tokInt) {
 			return &basic{
 				lead:  lead,
 				token: p.Shift(),
+			}
+		}
+		if p.See(tokFloat) {
+			tok := p.Shift()
+			return &basic{
+				lead:  lead,
+				token: tok,
+				value: parseFloatValue(p, tok),
 			}
 		}
 		t := p.Token()
